@@ -479,17 +479,14 @@ class Visitor(ast.NodeVisitor):
                 )
             )
 
-        result = None  # type: Optional[Any]
-
+        # Mind that the value of a variable can be ``None``, so we need to distinguish that from a missing variable.
         if node.id in self._name_to_value:
-            result = self._name_to_value[node.id]
-
-        if result is None and hasattr(builtins, node.id):
+            result = self._name_to_value[node.id]  # type: Any
+        elif hasattr(builtins, node.id):
             result = getattr(builtins, node.id)
-
-        if result is None and node.id != "None":
+        else:
             # The variable refers to a name local of the lambda (e.g., a target in the generator expression).
-            # Since we evaluate generator expressions with runtime compilation, None is returned here as a placeholder.
+            # Since we evaluate generator expressions with runtime compilation, a placeholder is returned here.
             return PLACEHOLDER
 
         self.recomputed_values[node] = result
